@@ -77,11 +77,25 @@ def build_agg(c, mult=None, sub=None):
     return agg
 
 
-def make_lab(pol):
+def make_lab(pol, reuse=None):
+    """a LabSetup holding the four polarisations `pol`.  reuse = {"perm": permutation of 0..3, "mode": "overwrite" | "feedback"}:
+    the lab first holds the permuted four-tuple and is then re-configured - with fresh arrays, or (feedback) with the vectors its
+    own getters returned, handed back in the order that makes the requested four-tuple `pol` again."""
     import quantarhei as qr
+    fl = [[float(x) for x in p] for p in pol]
     lab = qr.LabSetup()
-    lab.set_pulse_polarizations(pulse_polarizations=[[float(x) for x in p] for p in pol[:3]],
-                                detection_polarization=[float(x) for x in pol[3]])
+    if not reuse:
+        lab.set_pulse_polarizations(pulse_polarizations=fl[:3], detection_polarization=fl[3])
+        return lab
+    perm = reuse["perm"]
+    first = [fl[perm[i]] for i in range(4)]
+    lab.set_pulse_polarizations(pulse_polarizations=first[:3], detection_polarization=first[3])
+    if reuse["mode"] == "feedback":
+        rows = list(lab.get_pulse_polarizations()) + [lab.get_detection_polarization()]
+        req = [rows[perm.index(i)] for i in range(4)]
+        lab.set_pulse_polarizations(pulse_polarizations=(req[0], req[1], req[2]), detection_polarization=req[3])
+    else:
+        lab.set_pulse_polarizations(pulse_polarizations=fl[:3], detection_polarization=fl[3])
     return lab
 
 
@@ -244,8 +258,14 @@ def gen_system(r, k, tier):
 
 
 def gen_orient(r, k):
-    return {"kind": "orient", "pol": [rvec(r) for _ in range(4)], "dip": [rvec(r) for _ in range(4)],
-            "sides": [r.choice([1, -1]) for _ in range(4)]}
+    c = {"kind": "orient", "pol": [rvec(r) for _ in range(4)], "dip": [rvec(r) for _ in range(4)],
+         "sides": [r.choice([1, -1]) for _ in range(4)]}
+    if k % 3 == 1:              # one LabSetup object configured twice (second time with fresh arrays or with its own getters' output)
+        perm = [0, 1, 2, 3]
+        while perm == [0, 1, 2, 3]:
+            r.shuffle(perm)
+        c["lab_reuse"] = {"perm": perm, "mode": r.choice(["overwrite", "feedback", "feedback"])}
+    return c
 
 
 def gen_calc(r, k, tier):
@@ -365,9 +385,13 @@ class StubAggregate:
 def run_orient(chk, c):
     import numpy
     from quantarhei.spectroscopy import diagramatics as diag
-    lab = make_lab(c["pol"])
+    lab = make_lab(c["pol"], c.get("lab_reuse"))
     e = [numpy.array(p, dtype=float) for p in c["pol"]]
     d = [numpy.array(p, dtype=float) for p in c["dip"]]
+    held = numpy.array(list(lab.get_pulse_polarizations()) + [lab.get_detection_polarization()], dtype=float)
+    if numpy.max(numpy.abs(held - numpy.array(c["pol"], dtype=float))) > 0:
+        chk.violation("orient:lab_holds_other_polarizations", "the LabSetup (re-configured: %s) holds the polarisations %s, requested were %s"
+                      % (c.get("lab_reuse"), held.tolist(), c["pol"]), "monitor", c)
     lp = diag.liouville_pathway("R", 0, aggregate=StubAggregate(d), order=3, pname="R1g")
     for k in range(4):
         # all four interactions on the left: |k+1><0| ... (sides only enter the sign)
